@@ -62,8 +62,8 @@ theorem sinkGets_measurement {d : TaskDef} {i : Nat} {p : Point} (h : sinkGets d
 
 /-! ### one `forkPoint`, seen from one sink -/
 
-theorem rec_entry {s : TM} (hi : Inv s) (t : String) (i : Nat) (p : Point) (k : Key) :
-    ∀ x ∈ s.forks k, x.1 ≠ t → rec t i (x.2, p) = none := by
+theorem rec_entry {β : Type} (g : TaskDef → Nat → Point → β) {s : TM} (hi : Inv s) (t : String) (i : Nat) (p : Point) (k : Key) :
+    ∀ x ∈ s.forks k, x.1 ≠ t → rec g t i (x.2, p) = none := by
   intro x hx hne
   have h1 := (hi.entry k x.1 x.2 hx).1
   have h2 := hi.owner x.1 x.2 h1
@@ -93,18 +93,18 @@ theorem liveEdge_some {s : TM} {t : String} {e : Edge} (h : s.liveEdge t = some 
 
 /-- **Routing of one point to one sink.** Under the table invariant, `forkPoint` hands `p` to the sink under from-node #`i`
 of task `t` exactly once when `t` is live, declares `p`'s (db, rp) and the from-node (chain) matches — and not at all otherwise. -/
-theorem fork_one {s : TM} (hi : Inv s) (t : String) (i : Nat) (p : Point) :
-    (events s p).filterMap (rec t i) =
+theorem fork_one {β : Type} (g : TaskDef → Nat → Point → β) {s : TM} (hi : Inv s) (t : String) (i : Nat) (p : Point) :
+    (events s p).filterMap (rec g t i) =
       match s.liveEdge t with
-      | some e => if decide ((p.db, p.rp) ∈ e.task.dbrps) && sinkGets e.task i p then [p.id] else []
+      | some e => if decide ((p.db, p.rp) ∈ e.task.dbrps) && sinkGets e.task i p then [g e.task i p] else []
       | none => [] := by
   unfold events
   simp only [List.filterMap_append, List.filterMap_map]
-  let h : String × Edge → Option Nat := fun x => rec t i (x.2, p)
-  have hcomp : (rec t i ∘ fun x : String × Edge => (x.2, p)) = h := rfl
+  let h : String × Edge → Option β := fun x => rec g t i (x.2, p)
+  have hcomp : (rec g t i ∘ fun x : String × Edge => (x.2, p)) = h := rfl
   rw [hcomp]
-  have hneE := rec_entry hi t i p (p.db, p.rp, p.name)
-  have hneW := rec_entry hi t i p (p.db, p.rp, "")
+  have hneE := rec_entry g hi t i p (p.db, p.rp, p.name)
+  have hneW := rec_entry g hi t i p (p.db, p.rp, "")
   have hneW' : ∀ x ∈ (s.forks (p.db, p.rp, "")).filter
       (fun x => !(s.forks (p.db, p.rp, p.name)).any (fun y => y.1 == x.1)), x.1 ≠ t → h x = none :=
     fun x hx => hneW x (List.mem_filter.mp hx).1
@@ -119,7 +119,7 @@ theorem fork_one {s : TM} (hi : Inv s) (t : String) (i : Nat) (p : Point) :
     simp only []
     obtain ⟨ht, hk0⟩ := liveEdge_some hl
     have hid : e0.task.id = t := hi.owner t e0 ht
-    have hrec : h (t, e0) = if sinkGets e0.task i p then some p.id else none := by
+    have hrec : h (t, e0) = if sinkGets e0.task i p then some (g e0.task i p) else none := by
       simp [h, rec, hid]
     by_cases hE : (p.db, p.rp, p.name) ∈ e0.task.keys
     · -- served under the exact key; the second loop skips it
